@@ -252,6 +252,106 @@ def cache_history(ctx, k):
     GlobalCache()['xsec_interpolation'] = None
 
 
+ROPS = ['get_H2O', 'get_CH4', 'get_CO2', 'set_interp_linear', 'set_interp_exp', 'set_memory_true', 'clear_cache', 'list_molecules']
+
+
+@harness('C14', 'cache_real_classes', quick=[dict(k=3, _shards=4)], thorough=[dict(k=3, _shards=4), dict(k=4, _shards=16)],
+         functions=FUNCS + ['taurex.opacity.pickleopacity:PickleOpacity.discover', 'taurex.opacity.hdf5opacity:HDF5Opacity.discover',
+                            'taurex.opacity.exotransmit:ExoTransmitOpacity.discover', 'taurex.cache.opacitycache:OpacityCache.find_list_of_molecules',
+                            'taurex.cache.opacitycache:OpacityCache.load_opacity'],
+         stubs=['glob.glob -> one file per format (/data/H2O.R100.pickle, /data/CH4.h5, /data/opacCO2.dat); pickle.load / h5py.File / open '
+                '-> small concrete tables of the documented layout', 'log10 UF'],
+         shard_depth=3, covers=['reload_after_mode_change', 'repeat_hit'],
+         outside=['byte-level decoding of the files', 'plugin opacity classes', 'CIACache/KTableCache (same protocol, not exercised)'])
+def cache_real_classes(ctx, k):
+    """Operation histories (solver-chosen selectors) over the REAL OpacityCache driving the REAL discover()/priority()/
+    constructors of PickleOpacity, HDF5Opacity and ExoTransmitOpacity (the real ClassFactory list), one file per format:
+    each molecule is read from its file once per configuration and the same object is served on repeated requests;
+    after set_interpolation(m) every opacity served afterwards -- whatever its format -- has mode m."""
+    import glob as globm
+    import h5py
+    import taurex.opacity.pickleopacity as pm
+    import taurex.opacity.hdf5opacity as hm
+    import taurex.opacity.exotransmit as em
+    from taurex.cache import OpacityCache, GlobalCache
+    t, p, wn = np.array([100.0, 200.0]), np.array([1.0, 2.0]), np.array([100.0, 200.0])
+    X = np.arange(1, 9, dtype=float).reshape(2, 2, 2) * 1e-20
+    reads = {'pickle': 0, 'h5': 0, 'dat': 0}
+
+    def fglob(pat, *a, **kw):
+        for ext, f in (('*.pickle', '/data/H2O.R100.pickle'), ('*.h5', '/data/CH4.h5'), ('*.dat', '/data/opacCO2.dat')):
+            if pat.endswith(ext):
+                return [f]
+        return []
+
+    def h5file(*a, **kw):
+        reads['h5'] += 1
+        return _H5File(bin_edges=_DS(wn), t=_DS(t), p=_DS(p, units='bar'), xsecarr=_DS(X), mol_name=_DS('CH4'), key_iso_ll=_DS('x'))
+
+    def pload(f, **kw):
+        reads['pickle'] += 1
+        return dict(wno=wn, t=t, p=p, xsecarr=X, name='H2O')
+    lines = ['100.0 200.0', '1.0 2.0']
+    for j in (1, 0):
+        lines.append(repr(float(1e-2 / wn[j])))
+        for i in range(2):
+            lines.append(" ".join([repr(float(p[i]))] + [repr(float(X[i, kk, j] / 10000.0)) for kk in range(2)]))
+
+    class _F(_DummyFile):
+        def readlines(self):
+            reads['dat'] += 1
+            return list(lines)
+    kind = {'H2O': 'pickle', 'CH4': 'h5', 'CO2': 'dat'}
+    cache = OpacityCache()
+    cache.clear_cache()
+    saved = {kk: GlobalCache()[kk] for kk in ('xsec_interpolation', 'xsec_path', 'xsec_in_memory')}
+    GlobalCache()['xsec_interpolation'] = None
+    GlobalCache()['xsec_in_memory'] = None
+    GlobalCache()['xsec_path'] = '/data'
+    mode = 'linear'
+    served = {}
+    try:
+        with patched(globm, glob=fglob), patched(h5py, File=h5file), \
+                patched(hm, allocate_as_shared=lambda arr, logger=None, **kw: arr), \
+                patched(pm, pickle=types.SimpleNamespace(load=pload), open=lambda *a, **kw: _DummyFile(),
+                        allocate_as_shared=lambda arr, logger=None, **kw: arr), \
+                patched(em, open=lambda *a, **kw: _F()):
+            for step in range(k):
+                op = ROPS[ctx.choice('op_%d' % step, len(ROPS))]
+                if op.startswith('get_'):
+                    mol = op[4:]
+                    n0 = dict(reads)
+                    o = cache[mol]
+                    ctx.goal('served_name[%d]' % step, o.moleculeName == mol)
+                    ctx.goal('mode_current[%d]' % step, o._interp_mode == mode)
+                    others = all(reads[x] == n0[x] for x in reads if x != kind[mol] and x != 'h5')
+                    if mol in served:
+                        ctx.cover('repeat_hit')
+                        ctx.goal('same_object[%d]' % step, o is served[mol] and reads == n0)
+                    else:
+                        # the HDF5 discovery opens its file to read the molecule name; the other formats are not read
+                        ctx.goal('only_requested_format_read[%d]' % step, others and reads[kind[mol]] >= n0[kind[mol]] + 1)
+                    served[mol] = o
+                elif op.startswith('set_interp_'):
+                    mode = op[len('set_interp_'):]
+                    cache.set_interpolation(mode)
+                    served = {}
+                    ctx.cover('reload_after_mode_change')
+                elif op == 'set_memory_true':
+                    cache.set_memory_mode(True)
+                    served = {}
+                elif op == 'clear_cache':
+                    cache.clear_cache()
+                    served = {}
+                elif op == 'list_molecules':
+                    mols = cache.find_list_of_molecules()
+                    ctx.goal('molecules_listed[%d]' % step, set(mols) == {'H2O', 'CH4', 'CO2'})
+    finally:
+        cache.clear_cache()
+        for kk, v in saved.items():
+            GlobalCache()[kk] = v
+
+
 class _TextFile(_DummyFile):
     """file double for line-oriented readers (readline / readlines)"""
     def __init__(self, lines):
